@@ -170,3 +170,47 @@ def d22_multidict_update_drop_tails(prop, mech, case, info, variant):
         if dep == got:
             return True
     return False
+
+
+@finding("D17", ["C06"])
+def d17_query_replaces_undecodable(prop, mech, case, info, variant):
+    """Mechanism: the raw query contains an escape run that is not valid UTF-8;
+    the `.query` mapping is built with urllib.parse.parse_qsl, whose decoder
+    substitutes U+FFFD, while every other accessor keeps such escapes verbatim.
+    Bug model, exact: items == reference split with errors='replace' decoding."""
+    if mech != "query_view_mismatch":
+        return False
+    raw = info.get("_raw_query")
+    got = info.get("_got")
+    if not isinstance(raw, str) or not isinstance(got, list):
+        return False
+    from .props.c06 import ref_query_items
+
+    strict = ref_query_items(raw)
+    repl = ref_query_items(raw, replace=True)
+    if strict == repl:
+        return False  # input predicate: some run must be undecodable
+    return [tuple(x) for x in got] == repl
+
+
+@finding("D12", ["C01"])
+def d12_non_ascii_ipv6_zone(prop, mech, case, info, variant):
+    """Mechanism: an IPv6 zone id is kept verbatim (C16), so a non-ASCII zone
+    makes str(url) non-ASCII and bytes(url) fail.  Input predicate: the URL's
+    host is an IPv6 literal whose zone part is not ASCII.  Bug model: the only
+    defects are the non-ASCII host and the resulting bytes() failure, and the
+    string with the zone removed is ASCII."""
+    if mech != "not_well_formed":
+        return False
+    kinds = set(info.get("kinds", []))
+    if not kinds or not kinds <= {"non_ascii_str:host", "bytes_raises"} or "non_ascii_str:host" not in kinds:
+        return False
+    u = info.get("_url")
+    try:
+        raw = u.raw_host
+        addr, sep, zone = raw.partition("%")
+        if not sep or zone.isascii() or ":" not in addr or not addr.isascii():
+            return False
+        return str(u).replace(zone, "").isascii()
+    except Exception:
+        return False
